@@ -27,6 +27,9 @@ func pickType(c *Ctx, cfg Cfg, depth int) *TypeCase {
 		if cfg.WithBQ && r.Chance(50) {
 			pool = catalogueBQ
 		}
+		if cfg.WithCustom && r.Chance(60) {
+			pool = catalogueCustom
+		}
 		t := pool[r.Intn(len(pool))]
 		if cfg.ProtoArrays && protoUnsafe(t) {
 			t = reflect.TypeOf(Inner{})
@@ -91,6 +94,7 @@ func randCfg(c *Ctx) Cfg {
 		cfg = Cfg{}
 	}
 	cfg.WithNull = c.rng.Chance(30)
+	cfg.WithCustom = c.rng.Chance(15)
 	return cfg
 }
 
